@@ -711,6 +711,57 @@ func ruleStreamLength(c *core.Ctx) {
 				return isEndstreamFlag(fn, info.ObjectOf(id), declared)
 			})
 			if !ok2 {
+				// the value may be stored first and used only where the
+				// verification succeeded (l := declared; if !trusted { l = recovered }):
+				// every use this assignment reaches must lie behind the verification
+				if lobj := core.ObjOf(info, as.Lhs[0]); lobj != nil {
+					pred := func(a core.Atom) bool {
+						if call, ok := a.HoldsCall(info, false, "pdf.endstreamAt"); ok {
+							return core.Mentions(info, call.Args[1], declared)
+						}
+						id, ok := ast.Unparen(a.Expr).(*ast.Ident)
+						if !ok || a.Neg || a.Tag != nil {
+							return false
+						}
+						return isEndstreamFlag(fn, info.ObjectOf(id), declared)
+					}
+					var others []*core.V
+					for _, d := range defVertices(g, lobj) {
+						if d != v {
+							others = append(others, d)
+						}
+					}
+					uses, allOK := 0, true
+					for u := range g.ReachFrom(v, false, core.AvoidVs(others...)) {
+						if u.AST == nil || u == v || !core.Mentions(info, u.AST, lobj) {
+							continue
+						}
+						isDef := false
+						for _, d := range others {
+							if d == u {
+								isDef = true
+							}
+						}
+						if isDef {
+							continue
+						}
+						uses++
+						good := false
+						for _, a := range append(g.DominatingAtoms(u), atomsBetween(g, v, u, others)...) {
+							if pred(a) {
+								good = true
+							}
+						}
+						if !good {
+							allOK = false
+						}
+					}
+					if uses > 0 && allOK {
+						ok2 = true
+					}
+				}
+			}
+			if !ok2 {
 				o.FailAt(fn.Site(as, ""), "declared length is trusted without endstreamAt(start+declared)")
 			}
 		}
